@@ -88,11 +88,19 @@ def check(prop, tier, spec):
             if r is None:
                 skipped += 1
                 continue
-            if r["crash"] == "harness" or (r["crash"] == "hang" and (v is None or v["ok"])):
+            wedge = r["crash"] == "hang" and "leak" in spec.get("end_oracles", ()) and \
+                "corebgp" in r.get("output", "")
+            if r["crash"] == "harness" or (r["crash"] == "hang" and (v is None or v["ok"]) and not wedge):
                 skipped += 1      # not driven to its end; the recorded prefix (if any) was explained
                 continue
             bad = None
-            if r["crash"] and r["crash"] != "hang":
+            if r["crash"] == "hang" and wedge and (v is None or v["ok"]):
+                # The bubble never became quiescent again: a goroutine of corebgp is stuck in a way that is
+                # not a durable block (typically waiting for Server.mu whose holder never returns).  The
+                # committed script families never hold a gate across a wait while a mutex waiter exists, so
+                # on a tree where the property holds this does not happen.
+                bad = "the process wedged while running the script (no quiescence within the time limit; goroutine dump in the replay file)"
+            elif r["crash"] and r["crash"] != "hang":
                 bad = "process %s while running the script" % ("reported a data race" if r["crash"] == "race" else "crashed")
             elif v is not None and not v["ok"]:
                 if known_ok.get(s["id"]):
